@@ -6,6 +6,7 @@ Require Import List String Arith Bool.
 Require Import MPSV.Ctx.ErrorModel MPSV.Ctx.ErrorProofs.
 Require MPSV.Ctx.ResizeModel MPSV.Ctx.ResizeProofs.
 Require MPSV.Ctx.AbortModel MPSV.Ctx.AbortProofs.
+Require MPSV.Conc.PoolModel MPSV.Conc.PoolAsync MPSV.Ctx.AsyncPool.
 Require MPSV.Total.SkelDefs MPSV.Total.SkelProofs.
 Import ListNotations.
 Open Scope string_scope.
@@ -63,6 +64,28 @@ Theorem C18_async_callback_once_partial : forall err,
   (err = true -> mpsolve_async err true = [EvCallback]).
 Proof. exact async_callback_once. Qed.
 Print Assumptions C18_async_callback_once_partial.
+
+(* The same over the C06 pool model (coq/Conc/PoolModel.v: the client and the pool's threads as a labelled transition
+   system over the two mutexes and condition variables of threading.c, spurious wake-ups included), no longer over a
+   definitional pool: mps_mpsolve_async hands ONE task (mps_caller = solve unless the flag is set; callback) to a private
+   pool.  For EVERY trace of the pool model in which exactly that task has been handed over: the callback has been invoked
+   at most once, nothing of the solve follows it, and as soon as the task counts as executed (or a wait on the pool returns)
+   the events are exactly those of mps_caller: the callback exactly once, after the solve. *)
+Theorem C18_async_callback_once : forall err tr s t,
+  PoolModel.run PoolModel.init tr = Some s -> PoolModel.assigned s = [t] ->
+  count_cb (AsyncPool.async_events err true tr) <= 1 /\
+  cb_last (AsyncPool.async_events err true tr) = true /\
+  (In t (PoolModel.executed s) \/ PoolModel.pc0 s = PoolModel.CRet PoolModel.EWaitRet ->
+     AsyncPool.async_events err true tr = caller err true /\ count_cb (AsyncPool.async_events err true tr) = 1).
+Proof. exact AsyncPool.async_callback_once_pool. Qed.
+Print Assumptions C18_async_callback_once.
+
+Example C18_async_callback_once_nonvacuous :
+  match PoolModel.run PoolModel.init PoolAsync.example_async with
+  | Some s => PoolModel.assigned s = [7] /\ In 7 (PoolModel.executed s) /\
+              AsyncPool.async_events false true PoolAsync.example_async = [EvSolveBegin; EvSolveEnd; EvCallback]
+  | None => False end.
+Proof. vm_compute. repeat split. left. reflexivity. Qed.
 
 (* ------------------------------------------------------------------------------------------------
    Abort polling (Ctx/AbortModel.v): the aborting client, the driver mps_secular_ga_mpsolve and the k
